@@ -52,8 +52,12 @@ FromPath(p) ==
     ELSE IF c[2] \in ValidLabels THEN Id(c[2]) ELSE Err
 
 \* ------------------------------------------------------------ server name
-Immediate(cli, h) == Len(cli) = Len(h) + 1 /\ Tail(cli) = h
-Deeper(cli, h)    == Len(cli) > Len(h) + 1 /\ IsSuffixOf(h, cli)
+\* Host names are compared up to letter case (DNS names are case-insensitive;
+\* the quantifier names client server names "differing case"): neither the TLS
+\* layer nor the configuration normalises them.
+LowerName(n) == [i \in 1..Len(n) |-> Lower(n[i])]
+Immediate(cli, h) == Len(cli) = Len(h) + 1 /\ LowerName(Tail(cli)) = LowerName(h)
+Deeper(cli, h)    == Len(cli) > Len(h) + 1 /\ IsSuffixOf(LowerName(h), LowerName(cli))
 
 \* The statement: id only from <id>.<configured name>; equal name = no id;
 \* strict + a name outside the configured domain = rejected.  A deeper
@@ -62,7 +66,7 @@ Deeper(cli, h)    == Len(cli) > Len(h) + 1 /\ IsSuffixOf(h, cli)
 \* does not say, so both "none" and "err" are admissible there.
 FromName(h, cli, strict) ==
     IF h = <<>> THEN {None}
-    ELSE IF cli = h THEN {None}
+    ELSE IF LowerName(cli) = LowerName(h) THEN {None}
     ELSE IF Immediate(cli, h)
          THEN IF Head(cli) \in ValidLabels THEN {Id(Head(cli))}
               \* ".<name>": an empty label is no id at all; the statement does
@@ -75,7 +79,7 @@ FromName(h, cli, strict) ==
     ELSE IF Deeper(cli, h) THEN {None, Err}
     ELSE {Err}
 
-Foreign(h, cli) == h # <<>> /\ cli # h /\ ~IsSuffixOf(h, cli)
+Foreign(h, cli) == h # <<>> /\ LowerName(cli) # LowerName(h) /\ ~IsSuffixOf(LowerName(h), LowerName(cli))
 
 Extract(i) ==
     IF i.proto \in PlainProtos THEN {None}
